@@ -398,6 +398,32 @@ theorem wire_dispatch_spec (r : Router) (hwf : WF r) (order : List (Str × Route
 example : summary (exRouter.wireServe exRouter.z 5 [['a'], ['b']]) = summary (exRouter.wireServe exRouter.z 1 [['a'], ['b']]) := by decide
 example : wirePath (decodedSegs [['a'], []]) = some ['/', 'a', '/'] := by decide
 
+/-! ## Failed exchanges leave no token in front of the router -/
+
+/-- Both tables that are consulted before the configured handler drop the token of an exchange on its failing exits
+    (facts regenerated from net/observation/handler.go and udp/server/discover.go; unknown shapes fail closed). -/
+theorem failed_exchanges_clean_up :
+    observationCleansUpOnEveryError = true ∧ discoveryCleansUpOnFailedWrite = true := by decide
+
+theorem failed_exchanges_leave_no_token (failed : List FailedExchange) (t : PreMux) :
+    failed.foldl PreMux.fail t = t := by
+  induction failed generalizing t with
+  | nil => rfl
+  | cons e es ih =>
+    have he : t.fail e = t := by
+      cases e <;> simp [PreMux.fail, failed_exchanges_clean_up.1, failed_exchanges_clean_up.2]
+    simp only [List.foldl_cons, he, ih]
+
+/-- After any number of failed observe registrations and failed discoveries, a message with ANY token — also the token
+    of one of those exchanges — is dispatched by the router exactly like a message on a fresh connection. -/
+theorem dispatch_after_failed_exchanges (r : Router) (failed : List FailedExchange) (order : List (Str × Route))
+    (code : Nat) (tok : Token) (segs : List Str) :
+    r.connServe failed order code tok segs = r.wireServe order code segs := by
+  simp [Router.connServe, failed_exchanges_leave_no_token]
+
+example : exRouter.connServe [.observe [0xa1, 0xb2], .discovery [0xa1, 0xb2]] exRouter.z 1 [0xa1, 0xb2] [['a'], ['b']] =
+    exRouter.wireServe exRouter.z 1 [['a'], ['b']] := by decide
+
 /-! ## middleware_order -/
 
 /-- The loop of `ServeCOAP` (from the last registered middleware down to the first) builds
@@ -472,6 +498,9 @@ open CoapVerif.Props.C17
 #print axioms uri_path_segments_survive_decoding
 #print axioms wirePath_eq_requestPath
 #print axioms wire_dispatch_spec
+#print axioms failed_exchanges_clean_up
+#print axioms failed_exchanges_leave_no_token
+#print axioms dispatch_after_failed_exchanges
 #print axioms middleware_order
 #print axioms middleware_trace
 #print axioms lock_discipline
